@@ -209,7 +209,6 @@ def unixtime(dt: datetime.date | datetime.time | datetime.timedelta) -> float:
 DateTimeT = t.TypeVar("DateTimeT", datetime.date, datetime.time, datetime.timedelta)
 
 
-@compat.lru_cache(maxsize=100_000)
 def dateparse(val: str, t: type[DateTimeT]) -> DateTimeT:
     """Parse a date string into a datetime object.
 
@@ -222,6 +221,9 @@ def dateparse(val: str, t: type[DateTimeT]) -> DateTimeT:
     Args:
         val: The date string to parse.
         t: The target datetime type.
+
+    Note:
+        Not memoized: "now" and time-only text are completed from the current clock.
 
     Returns:
         The parsed datetime object.
